@@ -11,14 +11,29 @@ Sub-checks
                     Every run must show the exit identifier and the exact marker sequence of vlib/ref/c17_model.py
                     (suite's contents first, in [cleanup] last; nothing from a parent suite; preprocessor only for
                     the suite's own cases), and the three ways of running a case must agree with each other.
-* suite_symbols     differential: suite-level instructions of ~50 kinds consume symbols that every case defines
-                    differently (vlib/gen/c17_units.py); each case in the suite run (two orders) must show the exit
-                    identifier and the observations of its standalone run beside the same exactly.suite.
-* histories         differential: lists of cases that change settings (env, cd, timeout, def, files, home, actor,
-                    status, stdin) and observe them, run in one `exactly suite` in several orders (all orders for
-                    <= 3 cases), against each case run standalone.
+* phase_subsets_matrix  the same check over the COMPLETE product: every subset of the six sections supplied by the
+                    suite x every subset supplied by the case (thorough: 64 x 64; quick: 4 case subsets per suite
+                    subset), the [conf] contents in turn actor / home / act-home / status / preprocessor.
+* symbol_units_matrix / suite_symbols   differential: suite-level instructions of ~140 kinds (vlib/gen/c17_units.py:
+                    every instruction of setup / before-assert / assert / cleanup and the [act] phase of four actors,
+                    with symbol references as integer, integer matcher, regex, glob pattern, file name, path,
+                    relativity root, list / program argument, program name, text source, here-document, environment
+                    variable name and value, timeout, line-number range, files-condition, files-source, every matcher
+                    and transformer type, inside suite-level `def`s; and -rel-home / -rel-act-home paths) consume
+                    symbols (and home directories) that every case defines differently; each case in the suite run must
+                    show the exit identifier and the observations of its standalone run beside the same exactly.suite.
+                    The matrix is unit x symbol, the values in a chain valid / valid / invalid / valid / missing / valid.
+* histories         differential: lists of cases that change settings (env set / unset / -of act, cd, timeout, def,
+                    files and directories in act/ and tmp/, home, act-home, actor, status, stdin) and observe them
+                    (pwd, complete environment, sandbox listing, stdin, symbol values, exists), run in one
+                    `exactly suite` in EVERY order for <= 4 cases (random orders beyond), against each case run
+                    standalone.
+* slow_cases        the few cases that need seconds: `timeout = 1` in one case, a process of 1.5 s in the next one
+                    (instruction of any phase, or the action to check); a suite-level `timeout = @[T]@` + `sleep 2`.
 Every run also demands: no escaped exception, the cwd and environment of the Exactly process unchanged, no sandbox
-left behind.
+left behind.  The runs of the differential sub-checks are made in forked children of the worker (see _isolated): a
+standalone reference run starts from a process in which no other case has run, and all the cases of a suite run share
+one process - as they do under `exactly suite`.
 """
 import os
 import re
@@ -39,16 +54,22 @@ RULE = ('suite_contents: hierarchies = root suite (exactly.suite or main.suite; 
         'with own contents in random subsets, in 45 % a sub-suite (sub/exactly.suite | sub/x.suite | s2.suite; bare or '
         'with own contents) with 1-2 cases, in 35 % an unrelated other.suite; run as suite, every case with --suite '
         'and without, from the case directory or its parent.  Non-trivial = suite and a case both contribute to some '
-        'phase.  suite_symbols / symbol_units_matrix: 1-4 (matrix: 1) suite-level units out of 66 instruction kinds x '
-        'phases, each consuming 1-3 symbols that 2-4 cases define differently (valid values, invalid values, wrong '
-        'type, missing; defined in any phase before the unit), optionally a suite-level [act] that consumes symbols; '
-        'both orders; non-trivial = some symbol is defined by the cases and there are >= 2 cases; the matrix is the '
-        'complete product unit x symbol x adjacent value pairs (thorough: all ordered pairs, all phases).  histories: '
-        '2-5 cases of 1-8 ops (env set/unset/-of, cd, timeout, def, file, dir, shell-made file, stdin; observers: '
-        'pwd+env+sandbox listing, symbol use, exists, sleep) over the four instruction phases, conf settings, five '
-        'kinds of act, endings ok / hard error / validation error / syntax error; all orders for <= 3 cases else up to '
-        '6 (thorough 12), in 25 % split over a sub-suite; non-trivial = in some order an observing case runs after a '
-        'changing case.  distinct = distinct generated value')
+        'section.  phase_subsets_matrix: the complete product of section subsets (see the docstring), every fifth '
+        'with a sub-suite, every seventh run from the parent directory.  suite_symbols: 1-4 suite-level units out of '
+        '~140 instruction kinds x phases, each consuming 1-3 symbols (or the home / act-home directory) that 2-4 cases '
+        'define differently (valid values, invalid values, wrong type, missing; defined in any phase before the '
+        'unit; at least one symbol differs between the cases), optionally a suite-level [act] that consumes symbols; '
+        'both orders (thorough: a third one); symbol_units_matrix: every unit x every symbol of it, quick: one suite '
+        'of six cases (valid a, valid b, invalid, valid c, wrong type / missing, valid a) in one phase, thorough: '
+        'the chain over all values of the pool and all pairs of values (suites of two cases, both orders) in every '
+        'phase the unit may stand in; non-trivial = some symbol is defined by the cases and there are >= 2 cases.  '
+        'histories: 2-5 cases of 1-8 ops (env set/unset/-of, cd, timeout, def, file, dir, shell-made file, stdin; '
+        'observers: pwd+env+sandbox listing, symbol use, exists, sleep) over the four instruction phases, conf '
+        'settings, five kinds of act, endings ok / hard error / validation error / syntax error; ALL orders for <= 4 '
+        'cases, for 5 cases 6 (thorough 12) orders, in 25 % split over a sub-suite; non-trivial = in some order an '
+        'observing case runs after a changing case.  slow_cases: enumerated (timeout-setting phase x sleeping phase; '
+        'quick 4 + 1, thorough 20 x both orders + a third case in between + the timeout unit in 3 phases).  '
+        'distinct = distinct generated value')
 ASSUMPTIONS = [
     'the suite run is observed through the progress reporter: `case  NAME: (T s) IDENTIFIER` lines (format taken from '
     'observation, as in C16), last line OK / ERROR',
@@ -63,13 +84,21 @@ ASSUMPTIONS = [
     ':out-of-model): act lines written for another actor than the effective one, and a symbol used in [cleanup] '
     'whose definition was jumped over after an error (the unchanged tree answers INTERNAL_ERROR there, standalone as '
     'well as in a suite - not a C17 matter, reported to the integrator)',
-    'suite_symbols and histories are differential: the reference is the same case run standalone in the same harness '
-    'process (fresh MainProgram, cwd/environment restored by the driver); subprocess_differential compares a real OS '
-    'process with the in-process run on a sample',
+    'suite_symbols, symbol_units_matrix, histories and slow_cases are differential: the reference is the same case '
+    'run standalone (alternately `exactly CASE` beside exactly.suite and `exactly --suite`) in a forked child of the '
+    'harness process, the suite run in another forked child; subprocess_differential compares a real OS process '
+    'with the in-process run on a sample',
+    'slow_cases: a process that sleeps 1.5 s (2 s) is still running when a timeout of 1 s expires and has ended '
+    'before one of 4 s / the default of 60 s does (margins of >= 0.5 s on a machine that is not overloaded beyond '
+    'measure; a sleeping case of a history never sets a timeout itself)',
     'histories: what a case observes = pwd, `env | sort` (complete), the listing of its sandbox act/ and tmp/ '
     'directories, the stdin of its action, values of symbols, exists-assertions, and whether a 1.5 s sleep survives '
-    '(timeout carried over from a case that set `timeout = 1`); a sleeping case never sets a timeout itself, so no '
-    'outcome depends on a race',
+    '(timeout carried over from a case that set `timeout = 1`); a sleeping case never sets a timeout itself; a '
+    'mismatch of a case that involves a timeout of one second counts only if a second evaluation of the case shows '
+    'it again (else: inconclusive, label mismatch-not-reproduced)',
+    'suite_symbols: a symbol that the case defines in [assert] after an assertion of the suite has failed, used by '
+    'the suite\'s [cleanup], gives INTERNAL_ERROR standalone as well as in the suite (not a C17 matter: the outcomes '
+    'agree; reported to the integrator earlier)',
     'error texts on stderr are not compared between the ways of running a case (the property speaks of outcomes)',
 ]
 
@@ -79,15 +108,80 @@ _SDS_RE = re.compile(r'/exactly-[A-Za-z0-9_-]+')
 
 
 # ---- shared observation helpers ------------------------------------------------------------------------------------
-class Run:
-    """one execution of the program + what it left in {MARKERS}"""
+_WARM = [False]
 
-    def __init__(self, ws, argv, cwd=None, extra_env=None, subprocess=False):
+
+def _warm_up():
+    """once per worker process: run a trivial suite and case in this process, so that every module Exactly imports
+    lazily is loaded before the first fork"""
+    if _WARM[0]:
+        return
+    _WARM[0] = True
+    with driver.Workspace() as ws:
+        ws.write('w.suite', '[cases]\nw.case\n[setup]\nfile -rel-tmp f = "x" -transformed-by filter -line-nums 1\n')
+        ws.write('w.case', '[conf]\nactor = source % sh\n[setup]\ndef string S = s\nenv A = "@[S]@"\n[act]\ntrue\n'
+                           '[assert]\nexit-code == 0\ncontents -rel-tmp f : num-lines == 1\nrun % true\n'
+                           'exists -rel-tmp f : run % true\nstdout -from % echo x\n  run % true\n'
+                           'file -rel-tmp g = -stdout-from -ignore-exit-code % true\n')
+        driver.run_inproc(ws, ['suite', 'w.suite'])
+        driver.run_inproc(ws, ['--suite', 'w.suite', 'w.case'])
+
+
+def _isolated(fn):
+    """fn() evaluated in a forked child process -> its (picklable) result.
+
+    Every execution of Exactly starts from the same process state (that of the worker after _warm_up) and leaves
+    nothing behind in the worker: what a run stores in module / class level state of exactly_lib cannot reach the
+    standalone reference runs, and shows up as a difference between a suite run (one process for all its cases) and
+    the standalone runs.  VERIF_C17_NO_FORK=1 switches the isolation off (debugging)."""
+    if os.environ.get('VERIF_C17_NO_FORK'):
+        return fn()
+    import gc
+    import pickle
+    import traceback
+    _warm_up()
+    rfd, wfd = os.pipe()
+    pid = os.fork()
+    if pid == 0:
+        code = 0
+        try:
+            gc.disable()  # a collection in the short-lived child would touch (= copy) every page of the heap
+            os.close(rfd)
+            try:
+                data = pickle.dumps(('ok', fn()))
+            except BaseException as ex:
+                data = pickle.dumps(('error', '%r\n%s' % (ex, traceback.format_exc(limit=12))))
+            with os.fdopen(wfd, 'wb') as f:
+                f.write(data)
+        except BaseException:
+            code = 3
+        finally:
+            os._exit(code)
+    os.close(wfd)
+    with os.fdopen(rfd, 'rb') as f:
+        data = f.read()
+    os.waitpid(pid, 0)
+    if not data:
+        raise RuntimeError('the forked child that ran Exactly ended without a result')
+    kind, value = pickle.loads(data)
+    if kind != 'ok':
+        raise RuntimeError('harness error in the forked child: %s' % value)
+    return value
+
+
+class Run:
+    """one execution of the program + what it left in {MARKERS}.  isolate=True (the differential sub-checks): in a
+    forked child of the worker, see _isolated (costs ~14 ms CPU more per run: the child copies the pages it touches);
+    suite_contents judges every run by the model, there the runs share the worker process"""
+
+    def __init__(self, ws, argv, cwd=None, extra_env=None, subprocess=False, isolate=False):
         if os.path.exists(ws.markers):
             os.remove(ws.markers)
         self.argv = list(argv)
         if subprocess:
             self.r = driver.run_subproc(ws, argv, cwd=cwd)
+        elif isolate:
+            self.r = _isolated(lambda: driver.run_inproc(ws, argv, cwd=cwd, extra_env=extra_env))
         else:
             self.r = driver.run_inproc(ws, argv, cwd=cwd, extra_env=extra_env)
         self.raw_markers = ws.read_markers()
@@ -375,7 +469,7 @@ def ss_render(case):
 
 def _observe_standalone(ws, argv):
     """-> (Run, (identifier, lines) or None, problem bucket or None)"""
-    run = Run(ws, argv)
+    run = Run(ws, argv, isolate=True)
     p = run.process_problem()
     if p:
         return run, None, p
@@ -433,7 +527,7 @@ def check_suite_symbols(case) -> Verdict:
                 return bad('generated-case-has-syntax-error', run)
         for order in case['orders']:
             ws.write('exactly.suite', listing(order))
-            run = Run(ws, ['suite', 'exactly.suite'])
+            run = Run(ws, ['suite', 'exactly.suite'], isolate=True)
             p = run.process_problem()
             if p == 'timeout':
                 return Verdict(inconclusive=True, labels=labels)
@@ -469,31 +563,53 @@ def check_suite_symbols(case) -> Verdict:
     return Verdict(True, nontrivial=nontrivial, labels=sorted(set(labels)), sample=ss_render(case))
 
 
-def enum_unit_matrix(tier):
-    """every unit x every symbol of it x every pair of (adjacent: quick / all: thorough) pool values: two cases that
-    differ in that symbol only, both orders"""
-    for u in units.UNITS + units.ACT_UNITS:
-        roles = sorted(u['syms'].items())
-        for role, pool in roles:
-            typ, valid, invalid = units.POOLS[pool]
-            vals = list(range(len(valid))) + [['bad', i] for i in range(len(invalid))] + ['wrong', 'missing']
-            n = len(vals)
-            pairs = [(a, (a + 1) % n) for a in range(n)] if tier == 'quick' else \
-                [(a, b) for a in range(n) for b in range(n) if a != b]
-            later = [p for p in u['phases'] if p != 'setup']
-            # quick: one phase per (unit, symbol) - the suite's [cleanup] (after the case's) or an earlier phase in turn
-            for phase in (later if tier != 'quick' else [later[-1 - (len(role) + len(u['id'])) % min(2, len(later))]]):
-                for a, b in pairs:
-                    is_act = u['kind'] == 'ACT'
-                    k = 'A' if is_act else '0'
-                    inst = {'t': u['id'], 'phase': phase, 'suite_defs': {}}
-                    cs = []
-                    for ci, v in enumerate((vals[a], vals[b])):
-                        defs = {'%s.%s' % (k, r): {'v': 0, 'ph': 'setup'} for r, _ in roles}
-                        defs['%s.%s' % (k, role)] = {'v': v, 'ph': 'setup'}
-                        cs.append({'id': 'c%d' % ci, 'defs': defs, 'exit': 0})
-                    yield {'units': [] if is_act else [inst], 'act': inst if is_act else None, 'cases': cs,
-                           'case_act': False, 'orders': [[0, 1], [1, 0]]}
+def _matrix_case(u, role, phase, vals, orders):
+    """one suite-level unit; the cases differ in the value of one symbol (`role`) only"""
+    roles = sorted(u['syms'].items())
+    is_act = u['kind'] == 'ACT'
+    k = 'A' if is_act else '0'
+    inst = {'t': u['id'], 'phase': phase, 'suite_defs': {}}
+    cs = []
+    for ci, v in enumerate(vals):
+        defs = {'%s.%s' % (k, r): {'v': 0, 'ph': 'setup'} for r, _ in roles}
+        defs['%s.%s' % (k, role)] = {'v': v, 'ph': 'setup'}
+        cs.append({'id': 'c%d' % ci, 'defs': defs, 'exit': 0})
+    return {'units': [] if is_act else [inst], 'act': inst if is_act else None, 'cases': cs, 'case_act': False,
+            'orders': orders}
+
+
+def enum_unit_matrix(tier, unit_list=None):
+    """every unit x every symbol of it:
+    quick: ONE suite of six cases that give the symbol the values  valid a, valid b, invalid (or wrong type / none),
+    valid c, wrong type (or none), valid a  - so every case but the first runs after a case with another value, a
+    valid value after an invalid one and the other way round - the unit in one phase (the suite's [cleanup], which
+    comes after the case's, or an earlier phase - in turn);
+    thorough: that chain over ALL values in every phase the unit may stand in, plus every pair of values as a suite of
+    two cases, both orders."""
+    for u in (units.UNITS + units.ACT_UNITS if unit_list is None else unit_list):
+        for role, pool in sorted(u['syms'].items()):
+            vals = units.pool_values(pool)
+            n_valid = len(units.POOLS[pool][1])
+            # a symbol is defined by the case's [setup], so the unit stands in a later phase of the suite; what the
+            # case's [conf] says (home, act-home) also reaches the suite's [setup]
+            later = [p for p in u['phases'] if p != 'setup' or units.is_conf_pool(pool)]
+            if tier == 'quick':
+                h = len(role) + len(u['id'])
+                va, vb, vc = [(h + i) % n_valid for i in range(3)]
+                odd = vals[n_valid:]  # invalid values, then 'wrong' (symbols only), then 'missing'
+                invalid = [v for v in odd if isinstance(v, list)]
+                third = invalid[h % len(invalid)] if invalid else odd[0]
+                fifth = [v for v in odd[::-1] if v != third and not isinstance(v, list)] or [odd[-1]]
+                chain = [va, vb, third, vc, fifth[h % len(fifth)], va]
+                phase = later[-1 - h % min(2, len(later))] if not units.is_conf_pool(pool) else later[h % len(later)]
+                yield _matrix_case(u, role, phase, chain, [list(range(len(chain)))])
+                continue
+            for phase in later:
+                idx = list(range(len(vals)))
+                yield _matrix_case(u, role, phase, vals, [idx, idx[::-1]])
+                for a in range(len(vals)):
+                    for b in range(a + 1, len(vals)):
+                        yield _matrix_case(u, role, phase, [vals[a], vals[b]], [[0, 1], [1, 0]])
 
 
 # ---- histories ---------------------------------------------------------------------------------------------------
@@ -543,7 +659,25 @@ def _first_diff(a, b):
     return None
 
 
+def _confirmed(check, case) -> Verdict:
+    """for cases whose outcome involves a timeout of one second: a mismatch counts only if it shows up again when the
+    case is evaluated a second time (a leak does; a process that an overloaded machine delayed by a second does not)"""
+    v = check(case)
+    if v.ok or v.inconclusive:
+        return v
+    v2 = check(case)
+    if v2.ok or v2.inconclusive or v2.bucket != v.bucket:
+        return Verdict(inconclusive=True, labels=list(v.labels) + ['mismatch-not-reproduced'])
+    return v2
+
+
 def check_histories(case) -> Verdict:
+    if any(op[:2] == ['timeout', '1'] for c in case['cases'] for ops in c['ops'].values() for op in ops):
+        return _confirmed(_check_histories, case)
+    return _check_histories(case)
+
+
+def _check_histories(case) -> Verdict:
     cases = case['cases']
     ids = [c['id'] for c in cases]
     labels = ['cases:%d' % len(cases), 'orders:%d' % len(case['orders'])]
@@ -585,7 +719,7 @@ def check_histories(case) -> Verdict:
         ref = {}
         for c in cases:
             ws.probe_cfg(c['id'] + '.py', exit=c['act']['code'], stdout='out-of-%s\n' % c['id'])
-            run = Run(ws, [c['id'] + '.case'], extra_env=hist.EXTRA_ENV)
+            run = Run(ws, [c['id'] + '.case'], extra_env=hist.EXTRA_ENV, isolate=True)
             p = run.process_problem()
             if p == 'timeout':
                 return Verdict(inconclusive=True, labels=labels)
@@ -604,7 +738,7 @@ def check_histories(case) -> Verdict:
                 ws.write('hist.suite', '[suites]\nsub.suite\n[cases]\n' + '\n'.join(names[k:]) + '\n')
             else:
                 ws.write('hist.suite', '\n'.join(names) + '\n')
-            run = Run(ws, ['suite', 'hist.suite'], extra_env=hist.EXTRA_ENV)
+            run = Run(ws, ['suite', 'hist.suite'], extra_env=hist.EXTRA_ENV, isolate=True)
             p = run.process_problem()
             if p == 'timeout':
                 return Verdict(inconclusive=True, labels=labels)
@@ -664,6 +798,14 @@ def check_subprocess(case) -> Verdict:
     return Verdict(True, nontrivial=True, labels=labels + ['final:%s' % obs[0]['final']])
 
 
+def enum_subprocess_sample(tier):
+    """a fixed sample of the phase-subset hierarchies (a real OS process costs 0.7 s): quick 16, thorough ~580"""
+    step = 16 if tier == 'quick' else 7
+    for i, c in enumerate(gen.enum_phase_subsets(tier)):
+        if i % step == 5:
+            yield c
+
+
 # ---- the manual still says what the model transcribes -------------------------------------------------------------
 def check_manual(case) -> Verdict:
     with driver.Workspace() as ws:
@@ -710,16 +852,42 @@ _MANUAL = [{'what': 'suite-' + ph, 'args': ['help', 'suite', ph], 'needles': [_B
     {'what': 'null-actor', 'args': ['help', 'actor', 'null'], 'needles': [r'Ignores the contents of the \[act\] phase']},
 ]
 
+# ---- cases that cost seconds (a process outlives / does not outlive a timeout) ---------------------------------------
+def enum_slow(tier):
+    for h in hist.timeout_histories(tier):
+        yield {'kind': 'history', 'case': h}
+    for u in units.SLOW_UNITS:
+        later = [p for p in u['phases'] if p != 'setup']
+        for phase in (later[:1] if tier == 'quick' else later):
+            for role in sorted(u['syms']):
+                yield {'kind': 'unit', 'case': _matrix_case(u, role, phase, [0, 1],
+                                                            [[0, 1]] if tier == 'quick' else [[0, 1], [1, 0]])}
+
+
+def check_slow(case) -> Verdict:
+    if case['kind'] == 'history':
+        return check_histories(case['case'])
+    return _confirmed(check_suite_symbols, case['case'])
+
+
+def slow_render(case):
+    return hi_render(case['case']) if case['kind'] == 'history' else ss_render(case['case'])
+
+
 SUBS = [
+    # first: few cases that mostly wait - one shard each, so that they are started at once
+    Sub('slow_cases', check_slow, enumerate=enum_slow, exhaustive=True, render=slow_render,
+        shards={'quick': 5, 'thorough': 16}),
+    Sub('histories', check_histories, strategy=lambda tier: hist.histories(tier),
+        budget={'quick': 220, 'thorough': 5000}, render=hi_render),
     Sub('manual_agrees', check_manual, enumerate=lambda tier: _MANUAL, exhaustive=True,
         shards={'quick': 1, 'thorough': 1}),
     Sub('suite_contents', check_suite_contents, strategy=lambda tier: gen.suite_with_contents(),
-        budget={'quick': 500, 'thorough': 15000}, render=sc_render),
+        budget={'quick': 350, 'thorough': 15000}, render=sc_render),
+    Sub('phase_subsets_matrix', check_suite_contents, enumerate=gen.enum_phase_subsets, exhaustive=True,
+        render=sc_render),
     Sub('symbol_units_matrix', check_suite_symbols, enumerate=enum_unit_matrix, exhaustive=True, render=ss_render),
     Sub('suite_symbols', check_suite_symbols, strategy=lambda tier: units.suites_with_symbol_consumers(tier),
         budget={'quick': 300, 'thorough': 10000}, render=ss_render),
-    Sub('histories', check_histories, strategy=lambda tier: hist.histories(tier),
-        budget={'quick': 250, 'thorough': 5000}, render=hi_render),
-    Sub('subprocess_differential', check_subprocess, strategy=lambda tier: gen.suite_with_contents(),
-        budget={'quick': 16, 'thorough': 600}, render=sc_render),
+    Sub('subprocess_differential', check_subprocess, enumerate=enum_subprocess_sample, render=sc_render),
 ]
